@@ -75,3 +75,14 @@ Example rows_nonvacuous :
   asm_h2v2_plain_group rowloop_h2v2_upsample_sse2 4 [[1]; [2]] = c_h2v2_plain_group 4 [[1]; [2]] /\
   c_h2v2_plain_group 3 [[1]; [2]] = [[1; 1]; [1; 1]; [2; 2]; [2; 2]].
 Proof. vm_compute. repeat split; reflexivity. Qed.
+
+(* h2v2 merged upsampling stores the rows in the order of the C code, also when the rows alias *)
+Theorem merged2_store_order_eq : forall alias data b,
+  asm_merged2_final merged_h2v2_call_rows_sse2 alias data b = c_merged2_final alias data b /\
+  asm_merged2_final merged_h2v2_call_rows_avx2 alias data b = c_merged2_final alias data b.
+Proof. intros. split; reflexivity. Qed.
+Example merged2_alias_nonvacuous :
+  c_merged2_final (fun _ => 7) (fun r => [r; r]) 7 = Some [1; 1] /\
+  asm_merged2_final [1; 0] (fun _ => 7) (fun r => [r; r]) 7 = Some [0; 0] /\
+  c_merged2_final (fun r => r) (fun r => [r; r]) 0 = Some [0; 0].
+Proof. vm_compute. repeat split; reflexivity. Qed.
